@@ -438,6 +438,7 @@ func RunOne(t TestingT, w World, cfg Config, tape *Tape) (res Result) {
 		Stats: map[string]int{}, stateHashes: map[uint64]struct{}{},
 	}
 	cur = s
+	EventSeq = 0
 	runBubble(t, s)
 	cur = nil
 	res.Seed = tape.Seed
